@@ -48,7 +48,13 @@ def is_finite_bits(b):
     return ((b >> 52) & 0x7FF) != 0x7FF
 
 
+SAFE = set("0123456789abcdefghijklmnopqrstuvwxyzABCDEFGHIJKLMNOPQRSTUVWXYZ.+-_ ,")
+
+
 def coq_str(s):
+    """a Gallina string term: a plain literal for harmless ASCII, hex-decoded otherwise"""
+    if all(ch in SAFE for ch in s):
+        return '"%s"' % s
     return '(hx "%s")' % c.hexs(s)
 
 
@@ -77,10 +83,10 @@ def boundary_doubles():
                 out.append(nb | (1 << 63))
 
     for e in range(-1074, 1024, 1):
-        if e % 7 == 0 or e in (-1074, -1073, -1023, -1022, -1021, -1, 0, 1, 52, 53, 54, 63, 64, 1023):
+        if e % 23 == 0 or e in (-1074, -1073, -1023, -1022, -1021, -1, 0, 1, 52, 53, 54, 63, 64, 1023):
             around(2.0 ** e, 1)
     for e in range(-323, 309):
-        if e % 5 == 0 or -25 <= e <= 25:
+        if e % 17 == 0 or -25 <= e <= 25:
             around(float("1e%d" % e), 1)
     around(2.0 ** 53, 4)
     around(1e15, 3)
@@ -109,7 +115,7 @@ def gen_doubles(rng, n):
     kinds["boundary"] = len(bd)
     while len(xs) < n:
         r = rng.below(100)
-        if r < 60:
+        if r < 40:
             b = rng.next()
             if not is_finite_bits(b):
                 if rng.chance(1, 8):
@@ -117,18 +123,18 @@ def gen_doubles(rng, n):
                     xs.append(b if (b & ((1 << 52) - 1)) == 0 else 0x7FF8000000000000)
                 continue
             kinds["uniform"] += 1
-        elif r < 70:
+        elif r < 55:
             digits = 1 + rng.below(15)
             v = rng.below(10 ** digits)
             b = bits_of(float(v)) | (rng.below(2) << 63)
             kinds["int<1e15"] += 1
-        elif r < 78:
+        elif r < 68:
             v = 10 ** 15 + rng.below(2 ** 63)
             if rng.chance(1, 3):
                 v = 10 ** 15 + rng.below(10 ** 7)
             b = bits_of(float(v)) | (rng.below(2) << 63)
             kinds["int>=1e15"] += 1
-        elif r < 84:
+        elif r < 76:
             v = rng.below(10 ** (1 + rng.below(15))) + 0.5
             b = bits_of(v) | (rng.below(2) << 63)
             kinds["half-int"] += 1
@@ -365,7 +371,7 @@ def main(argv):
     c.proof_step(res, PID)
     known = {e["class"]: e for e in c.open_known(PID)}
     quick = tier == "quick"
-    n_doubles = 6000 if quick else 200000
+    n_doubles = 3000 if quick else 100000
     n_lits = 3000 if quick else 100000
     n_tonum = 1500 if quick else 40000
     n_json = 1500 if quick else 40000
@@ -378,7 +384,7 @@ def main(argv):
     rust = [parse_fields(l) for l in lines]
     exprs = []
     for b, f in zip(xs, rust):
-        exprs.append('c16_case %d %s' % (b, " ".join('(hx "%s")' % f.get(k, "") for k in ("D", "Z", "J", "S", "F", "E"))))
+        exprs.append('c16_case %d %s' % (b, " ".join(coq_str(c.unhex(f.get(k, ""))) for k in ("D", "Z", "J", "S", "F", "E"))))
 
     # ---------------------------------------------------------------- literal / to_number / JSON text streams
     lits = []
@@ -411,6 +417,8 @@ def main(argv):
     exprs += ["show_optnum (ref_str_parse %s)" % coq_str(t) for t in tonums]
     o3 = len(exprs)
     exprs += ["show_onum (json_in %s %s)" % ("true" if exact_core else "false", coq_str(t)) for t in jsons]
+    c.log("C16: %d doubles, %d literals, %d to_number texts, %d JSON texts; running the model (coqc vm_compute)"
+          % (len(xs), len(lits), len(tonums), len(jsons)))
     try:
         model = c.coq_eval_batch(REQ, "", exprs, "c16", shard=200)
     except c.BrokenTie as e:
@@ -442,8 +450,8 @@ def main(argv):
                 mism["contract"].append((xb, "{:.0} text differs from the exact integer", f["Z"]))
             if finite and m["RJ"] != "T":
                 mism["contract"].append((xb, "serde_json text differs from the ryu reference", f["J"]))
-            if finite and m["RP"] != xb:
-                mism["contract"].append((xb, "Display text does not read back through rn_decimal (got %s)" % m["RP"],
+            if finite and m["DN"] != xb:       # the model's to_number is the reference reading of D
+                mism["contract"].append((xb, "Display text does not read back through rn_decimal (got %s)" % m["DN"],
                                          f["D"]))
             # the repo's own logic: model vs implementation
             jm = m["JE"] if exact_core else m["JL"]
